@@ -99,6 +99,9 @@ Definition find_overlaps := find_overlaps_gen true.
 (* the code as found at the pinned commit *)
 Definition find_overlaps_legacy := find_overlaps_gen false.
 
+(* every row at least one base long *)
+Definition pos_rows (rows : list row) : Prop := Forall (fun r => 1 <= row_len r) rows.
+
 (* ---------------------------------------------------- brute-force spec *)
 (* scaffold coordinates of row k, straight from the row lengths *)
 Definition span_start (rows : list row) (k : nat) : Z := 1 + rows_len (firstn k rows).
